@@ -63,13 +63,14 @@ Record tgt_facts (s t0 : mbase) : Prop := {
   tf_fstrict : strictN (map fst (mb_fields t0)) = true;
   tf_fpres : forall e, In e (mb_fields t0) -> present_in (mb_fp t0) (fst e) = true;
   tf_gnil : forall g, In g (mb_groups t0) -> snd g = [];
+  tf_gstrict : strictN (map fst (mb_groups t0)) = true;
   tf_unk : mb_unknown t0 = []
 }.
 
 Lemma part_target_facts s t0 : part_target_ok s t0 = true -> tgt_facts s t0.
 Proof.
   unfold part_target_ok. rewrite !andb_true_iff.
-  intros [[[[[[H1 H2] H3] H4] H5] H6] H7].
+  intros [[[[[[[H1 H2] H3] H4] H5] H6] H6b] H7].
   constructor; try assumption.
   - intros e Hin. rewrite forallb_forall in H1. specialize (H1 e Hin). unfold init_entry_ok in H1.
     rewrite !andb_true_iff in H1. destruct H1 as [[[[Ha Hb] Hc] Hd] He].
@@ -85,14 +86,14 @@ Proof.
 Qed.
 
 Definition pgroup_ok (s t0 : mbase) (g : N * list mbase) : bool :=
-  (negb (group_in (mb_fp s) (fst g)) || is_some (map_find (fst g) (mb_groups t0))) &&
+  (negb (group_in (mb_fp s) (fst g)) || is_some (find_sub (mb_subs t0) (fst g))) &&
   match snd g with
   | [] => true
   | els =>
     group_owned (mb_fp s) (fst g) && negb (present_in (mb_fp t0) (fst g)) &&
-    match map_find (fst g) (mb_groups t0), find_sub (mb_subs t0) (fst g) with
-    | Some _, Some sg => forallb (fun e => src_ok e (create_group sg true)) els
-    | _, _ => false
+    match find_sub (mb_subs t0) (fst g) with
+    | Some sg => forallb (fun e => src_ok e (create_group sg true)) els
+    | None => false
     end
   end.
 
@@ -102,24 +103,23 @@ Proof. reflexivity. Qed.
 
 Definition grp_facts (s t0 : mbase) : Prop :=
   forall f els, In (f, els) (mb_groups s) ->
-    (group_in (mb_fp s) f = true -> exists x, map_find f (mb_groups t0) = Some x) /\
+    (group_in (mb_fp s) f = true -> exists sg, find_sub (mb_subs t0) f = Some sg) /\
     (els <> [] ->
      present_in (mb_fp s) f = true /\ group_in (mb_fp s) f = true /\ present_in (mb_fp t0) f = false /\
-     exists x sg, map_find f (mb_groups t0) = Some x /\ find_sub (mb_subs t0) f = Some sg /\
-                  Forall (fun e => src_ok e (create_group sg true) = true) els).
+     exists sg, find_sub (mb_subs t0) f = Some sg /\
+                Forall (fun e => src_ok e (create_group sg true) = true) els).
 
 Lemma pgroup_facts s t0 : forallb (pgroup_ok s t0) (mb_groups s) = true -> grp_facts s t0.
 Proof.
   intros H f els Hin. rewrite forallb_forall in H. specialize (H _ Hin). unfold pgroup_ok in H. cbn [fst snd] in H.
   apply andb_true_iff in H. destruct H as [Ha Hb]. split.
   - intros Hg. rewrite Hg in Ha. cbn [negb orb] in Ha.
-    destruct (map_find f (mb_groups t0)) as [x|]; [exists x; reflexivity|discriminate].
+    destruct (find_sub (mb_subs t0) f) as [x|]; [exists x; reflexivity|discriminate].
   - intros Hne. destruct els as [|e els]; [contradiction|].
     rewrite !andb_true_iff in Hb. destruct Hb as [[Ho Hp] Hm]. unfold group_owned in Ho.
     apply andb_true_iff in Ho. destruct Ho as [Ho1 Ho2]. apply negb_true_iff in Hp.
-    destruct (map_find f (mb_groups t0)) as [x|]; [|discriminate].
     destruct (find_sub (mb_subs t0) f) as [sg|]; [|discriminate].
-    repeat split; try assumption. exists x, sg. repeat split.
+    repeat split; try assumption. exists sg. split; [reflexivity|].
     apply Forall_forall. intros y Hy. rewrite forallb_forall in Hm. apply Hm. exact Hy.
 Qed.
 
@@ -168,7 +168,7 @@ Lemma copy_elems_ok sg f : forall els n t cur,
   exists els' t', copy_elems sg f (map (copy_legal false) els) (n, t) = Ok (n + nf_els els, t') /\
      Forall2 EP els els' /\
      mb_fp t' = mb_fp t /\ mb_subs t' = mb_subs t /\ mb_fields t' = mb_fields t /\ mb_pos t' = mb_pos t /\
-     mb_unknown t' = mb_unknown t /\
+     mb_unknown t' = mb_unknown t /\ map fst (mb_groups t') = map fst (mb_groups t) /\
      (forall g, map_find g (mb_groups t') = if g =? f then Some (cur ++ els') else map_find g (mb_groups t)).
 Proof.
   induction els as [|e els IH]; intros n t cur HF Hcur.
@@ -182,13 +182,51 @@ Proof.
     fold t1 in A1, A2, A3, A4, A5, A6.
     assert (Hc1 : map_find f (mb_groups t1) = Some (cur ++ [e'])).
     { rewrite A6, map_find_map_set, N.eqb_refl, Hcur. reflexivity. }
-    destruct (IH (n + nfields e) t1 (cur ++ [e']) HF' Hc1) as (els'' & t' & Hr & HF2 & B1 & B2 & B3 & B4 & B5 & B6).
+    destruct (IH (n + nfields e) t1 (cur ++ [e']) HF' Hc1) as (els'' & t' & Hr & HF2 & B1 & B2 & B3 & B4 & B5 & B5k & B6).
     exists (e' :: els''), t'. cbn [nf_els]. rewrite N.add_assoc. split; [exact Hr|].
     split; [constructor; assumption|].
-    rewrite B1, B2, B3, B4, B5, A1, A2, A3, A4, A5. repeat split.
+    rewrite B1, B2, B3, B4, B5, B5k, A1, A2, A3, A4, A5, A6, map_set_keys. repeat split.
     intros g. rewrite B6. destruct (g =? f) eqn:E.
     + rewrite <- app_assoc. reflexivity.
     + rewrite A6, map_find_map_set, E. reflexivity.
+Qed.
+
+Lemma map_insert_present {A} k (v : A) l : strictN (map fst l) = true -> In k (map fst l) -> map_insert k v l = l.
+Proof.
+  induction l as [|[q z] r IH]; intros S Hin; [destruct Hin|]. cbn [map fst] in S, Hin. cbn [map_insert].
+  pose proof (proj1 (strictN_cons _ _) S) as [Sq Sr].
+  destruct (k <? q) eqn:E.
+  - apply N.ltb_lt in E. destruct Hin as [->|Hin]; [lia|]. specialize (Sq k Hin). lia.
+  - destruct (k =? q) eqn:E2; [reflexivity|]. apply N.eqb_neq in E2.
+    destruct Hin as [Hq|Hin]; [congruence|]. rewrite (IH Sr Hin). reflexivity.
+Qed.
+
+(* to->find_add_group(fnum): the group object exists afterwards (created empty when missing) *)
+Lemma find_add_group_ok t f sg : strictN (map fst (mb_groups t)) = true -> find_sub (mb_subs t) f = Some sg ->
+  exists t', find_add_group t f = Ok (t', sg) /\
+     mb_fp t' = mb_fp t /\ mb_subs t' = mb_subs t /\ mb_fields t' = mb_fields t /\ mb_pos t' = mb_pos t /\
+     mb_unknown t' = mb_unknown t /\ strictN (map fst (mb_groups t')) = true /\
+     (forall g, map_find g (mb_groups t') =
+                if g =? f then Some (match map_find f (mb_groups t) with Some x => x | None => [] end)
+                else map_find g (mb_groups t)).
+Proof.
+  intros S Hs. unfold find_add_group. rewrite Hs. eexists. split; [reflexivity|].
+  destruct (with_groups_acc t (map_insert f [] (mb_groups t))) as (A1 & A2 & A3 & A4 & A5 & A6).
+  rewrite A1, A2, A3, A4, A5, A6. repeat split.
+  - destruct (map_find f (mb_groups t)) as [x|] eqn:E.
+    + rewrite map_insert_present; [exact S|exact S|]. apply map_find_In in E. apply (in_map fst) in E. exact E.
+    + apply map_insert_strict; [exact S|]. apply map_find_None. exact E.
+  - intros g. destruct (map_find f (mb_groups t)) as [x|] eqn:E.
+    + rewrite map_insert_present; [|exact S|apply map_find_In in E; apply (in_map fst) in E; exact E].
+      destruct (g =? f) eqn:Eg; [apply N.eqb_eq in Eg; subst g; exact E|reflexivity].
+    + revert E. clear. induction (mb_groups t) as [|[q z] r IH]; intros E; cbn [map_insert map_find].
+      * destruct (g =? f); reflexivity.
+      * cbn [map_find] in E. destruct (f =? q) eqn:Efq; [discriminate|]. destruct (f <? q).
+        -- cbn [map_find]. destruct (g =? f); reflexivity.
+        -- cbn [map_find]. destruct (g =? q) eqn:Egq.
+           ++ apply N.eqb_eq in Egq. subst q. destruct (g =? f) eqn:Egf; [|reflexivity].
+              apply N.eqb_eq in Egf. subst g. rewrite N.eqb_refl in Efq. discriminate.
+           ++ apply IH. exact E.
 Qed.
 
 (* ------------------------------------------------------------------ the loop over the trait table *)
@@ -213,7 +251,9 @@ Definition cnt (tr : trait) : N := if sel (t_fnum tr) then 1 + gcount tr else 0.
 Definition GP (f : N) (t : mbase) : Prop :=
   match map_find f (mb_groups s) with
   | Some (e :: es) => exists els', map_find f (mb_groups t) = Some els' /\ Forall2 EP (e :: es) els'
-  | _ => map_find f (mb_groups t) = map_find f (mb_groups t0)
+  | Some [] => if sel f && group_in (mb_fp s) f then map_find f (mb_groups t) = Some []   (* created if missing *)
+               else map_find f (mb_groups t) = map_find f (mb_groups t0)
+  | None => map_find f (mb_groups t) = map_find f (mb_groups t0)
   end.
 
 Definition Inv (done : list trait) (st : N * mbase) : Prop :=
@@ -226,8 +266,9 @@ Definition Inv (done : list trait) (st : N * mbase) : Prop :=
    forall k f v, In (k, (f, v)) (mb_pos (snd st)) <->
                  In (k, (f, v)) (mb_pos t0) \/
                  (cp done f = true /\ k = pos_of (mb_fp s) f /\ map_find f (mb_fields s) = Some v)) /\
-  (forall f, if in_done done f then GP f (snd st)
-             else map_find f (mb_groups (snd st)) = map_find f (mb_groups t0)) /\
+  ((forall f, if in_done done f then GP f (snd st)
+              else map_find f (mb_groups (snd st)) = map_find f (mb_groups t0)) /\
+   strictN (map fst (mb_groups (snd st))) = true) /\
   mb_subs (snd st) = mb_subs t0 /\ mb_unknown (snd st) = mb_unknown t0 /\
   fst st = sumN (map cnt done).
 
@@ -275,7 +316,7 @@ Lemma cp_ext done done' : (forall g, cp done' g = cp done g) -> forall st,
   fst st = sumN (map cnt done') ->
   Inv done st -> Inv done' st.
 Proof.
-  intros Hc st Hg Hn (I1 & (I2a & I2b) & (I3a & I3b) & I4 & I5 & I6 & I7).
+  intros Hc st Hg Hn (I1 & (I2a & I2b) & (I3a & I3b) & (I4 & I4s) & I5 & I6 & I7).
   unfold Inv. repeat split; try assumption.
   - intros f. rewrite Hc. apply I1.
   - intros H. apply I2b in H. rewrite Hc. exact H.
@@ -289,7 +330,7 @@ Lemma step_inv done pp rest st :
   exists st', copy_step false (mb_fields s) (gcopy_of false (mb_groups s)) pp st = Ok st' /\ Inv (done ++ [pp]) st'.
 Proof.
   intros Hfp HI. destruct st as [n t].
-  pose proof HI as (I1 & (I2a & I2b) & (I3a & I3b) & I4 & I5 & I6 & I7). cbn [fst snd] in *.
+  pose proof HI as (I1 & (I2a & I2b) & (I3a & I3b) & (I4 & I4s) & I5 & I6 & I7). cbn [fst snd] in *.
   set (f := t_fnum pp).
   assert (Hin : In pp (mb_fp s)) by (rewrite Hfp; apply in_or_app; right; left; reflexivity).
   assert (Hfind : find_trait (mb_fp s) f = Some pp) by (apply In_find_trait; [exact NoDup_fnums|exact Hin]).
@@ -318,7 +359,7 @@ Proof.
     - intros g. cbn [snd]. rewrite in_done_app. fold f. specialize (I4 g).
       destruct (in_done done g) eqn:Ed; [exact I4|]. cbn [orb].
       destruct (f =? g) eqn:E; [|exact I4]. apply N.eqb_eq in E. subst g.
-      unfold GP. destruct (map_find f (mb_groups s)) as [[|e es]|] eqn:Eg; try exact I4.
+      unfold GP. rewrite Esel. cbn [andb]. destruct (map_find f (mb_groups s)) as [[|e es]|] eqn:Eg; try exact I4.
       exfalso. apply map_find_In in Eg. destruct (GF _ _ Eg) as [_ Hne].
       destruct Hne as (Hp & _ & Hq & _); [discriminate|]. unfold sel in Esel. rewrite Hp, Hq in Esel. discriminate.
     - cbn [fst]. rewrite map_app, sumN_app, <- I7. cbn [map sumN fold_right]. unfold cnt. fold f. rewrite Esel. lia. }
@@ -330,35 +371,46 @@ Proof.
      copy_group (gcopy_of false (mb_groups s)) pp (n, t) = Ok (n + gcount pp, t1) /\
      mb_fp t1 = mb_fp t /\ mb_subs t1 = mb_subs t /\ mb_fields t1 = mb_fields t /\ mb_pos t1 = mb_pos t /\
      mb_unknown t1 = mb_unknown t /\
-     (forall g, g <> f -> map_find g (mb_groups t1) = map_find g (mb_groups t)) /\ GP f t1).
+     (forall g, g <> f -> map_find g (mb_groups t1) = map_find g (mb_groups t)) /\ GP f t1 /\
+     strictN (map fst (mb_groups t1)) = true).
   { unfold copy_group, gcount. fold f. cbn [snd]. rewrite map_find_gcopy.
     specialize (I4 f). rewrite Hnd in I4.
+    destruct (t_group pp) eqn:Egp.
+    2:{ (* no group field *)
+      exists t. rewrite N.add_0_r. split; [reflexivity|]. repeat split; try reflexivity; try exact I4s.
+      unfold GP. assert (Hgi : group_in (mb_fp s) f = false) by (unfold group_in; rewrite Hfind; exact Egp).
+      rewrite Hgi, andb_false_r.
+      destruct (map_find f (mb_groups s)) as [[|e es]|] eqn:Eg; try exact I4.
+      exfalso. destruct (GF _ _ (map_find_In _ _ _ Eg)) as [_ Hne].
+      destruct Hne as (_ & Hgi2 & _); [discriminate|congruence]. }
+    assert (Hgi : group_in (mb_fp s) f = true) by (unfold group_in; rewrite Hfind; exact Egp).
     destruct (map_find f (mb_groups s)) as [els|] eqn:Eg.
     2:{ (* the source has no such group *)
-      exists t. cbn [option_map]. replace (n + (if t_group pp then 0 else 0)) with n by (destruct (t_group pp); lia).
-      destruct (t_group pp); (split; [reflexivity|]); repeat split; try reflexivity; unfold GP; rewrite Eg; exact I4. }
+      exists t. cbn [option_map]. rewrite N.add_0_r. split; [reflexivity|].
+      repeat split; try reflexivity; try exact I4s. unfold GP. rewrite Eg. exact I4. }
     pose proof (map_find_In _ _ _ Eg) as Hing. destruct (GF _ _ Hing) as [Hex Hne].
-    destruct els as [|e es].
-    { exists t. cbn [option_map map nf_els]. replace (n + (if t_group pp then 0 else 0)) with n by (destruct (t_group pp); lia).
-      destruct (t_group pp); (split; [reflexivity|]); repeat split; try reflexivity; unfold GP; rewrite Eg; exact I4. }
-    destruct Hne as (_ & Hgi & _ & x & sg & Hx & Hsg & Hok); [discriminate|].
-    assert (Hgp : t_group pp = true) by (unfold group_in in Hgi; rewrite Hfind in Hgi; exact Hgi).
-    rewrite Hgp. cbn [option_map]. change (map (copy_legal false) (e :: es)) with (copy_legal false e :: map (copy_legal false) es).
-    rewrite I4, Hx, I5, Hsg.
-    change (copy_legal false e :: map (copy_legal false) es) with (map (copy_legal false) (e :: es)).
-    assert (Hx0 : x = []).
-    { apply map_find_In in Hx. exact (tf_gnil _ _ TF _ Hx). }
-    subst x.
-    assert (HFe : Forall (fun e0 => exists e', copy_legal false e0 (create_group sg true) = Ok (nfields e0, e') /\ EP e0 e') (e :: es)).
-    { pose proof (HE _ _ Hing) as Hpost. rewrite Forall_forall in Hpost, Hok. apply Forall_forall. intros e0 He0.
+    destruct (Hex Hgi) as [sg Hsg]. cbn [option_map].
+    assert (Hsg' : find_sub (mb_subs t) f = Some sg) by (rewrite I5; exact Hsg).
+    destruct (find_add_group_ok t f sg I4s Hsg') as (ta & Hfa & F1 & F2 & F3 & F4 & F5 & F6 & F7).
+    rewrite Hfa. cbn [bind fst snd].
+    assert (Hcur : map_find f (mb_groups ta) = Some []).
+    { rewrite F7, N.eqb_refl, I4. destruct (map_find f (mb_groups t0)) as [x|] eqn:Ex; [|reflexivity].
+      pose proof (tf_gnil _ _ TF _ (map_find_In _ _ _ Ex)) as Hx0. cbn [snd] in Hx0. rewrite Hx0. reflexivity. }
+    assert (HFe : Forall (fun e0 => exists e', copy_legal false e0 (create_group sg true) = Ok (nfields e0, e') /\ EP e0 e') els).
+    { destruct els as [|e es]; [constructor|].
+      destruct Hne as (_ & _ & _ & sg2 & Hsg2 & Hok); [discriminate|].
+      assert (sg2 = sg) by congruence. subst sg2.
+      pose proof (HE _ _ Hing) as Hpost. rewrite Forall_forall in Hpost, Hok. apply Forall_forall. intros e0 He0.
       exact (Hpost e0 He0 sg (Hok e0 He0)). }
-    assert (Hcur : map_find f (mb_groups t) = Some []) by (rewrite I4; exact Hx).
-    destruct (copy_elems_ok sg f (e :: es) n t [] HFe Hcur) as (els' & t' & Hr & HF2 & B1 & B2 & B3 & B4 & B5 & B6).
+    destruct (copy_elems_ok sg f els n ta [] HFe Hcur) as (els' & t' & Hr & HF2 & B1 & B2 & B3 & B4 & B5 & B5k & B6).
     exists t'. split; [exact Hr|]. split; [congruence|]. split; [congruence|]. split; [congruence|].
-    split; [congruence|]. split; [congruence|]. split.
-    - intros g Hg. rewrite B6. apply N.eqb_neq in Hg. rewrite Hg. reflexivity.
-    - unfold GP. rewrite Eg. exists els'. split; [|exact HF2]. rewrite B6, N.eqb_refl. reflexivity. }
-  destruct Hgrp as (t1 & Hcg & A1 & A2 & A3 & A4 & A5 & A6 & A7).
+    split; [congruence|]. split; [congruence|]. split; [|split].
+    - intros g Hg. rewrite B6. apply N.eqb_neq in Hg. rewrite Hg, F7, Hg. reflexivity.
+    - unfold GP. rewrite Eg. destruct els as [|e es].
+      + inversion HF2; subst. rewrite Esel, Hgi. cbn [andb]. rewrite B6, N.eqb_refl. reflexivity.
+      + exists els'. split; [|exact HF2]. rewrite B6, N.eqb_refl. reflexivity.
+    - rewrite B5k. exact F6. }
+  destruct Hgrp as (t1 & Hcg & A1 & A2 & A3 & A4 & A5 & A6 & A7 & A8).
   rewrite Hcg. cbn [bind fst snd]. fold f.
   destruct (present_value f Hsp) as [v Hv]. rewrite Hv.
   assert (Hyp : t_present y = false) by (rewrite <- Hpt; exact Htp).
@@ -430,6 +482,7 @@ Proof.
     + apply N.eqb_eq in E. subst g. rewrite orb_true_r. unfold GP in *. rewrite T2e. exact A7.
     + rewrite orb_false_r. assert (Hgf : g <> f) by (intros ->; rewrite N.eqb_refl in E; discriminate).
       specialize (I4 g). unfold GP in *. rewrite T2e, (A6 g Hgf). exact I4.
+  - rewrite T2e. exact A8.
   - rewrite T2b. exact I5.
   - rewrite T2f. exact I6.
   - rewrite map_app, sumN_app, <- I7. cbn [map sumN fold_right]. unfold cnt. fold f. rewrite Esel. lia.
@@ -457,6 +510,7 @@ Proof.
   - exact (tf_pstrict _ _ TF).
   - intros H. left. exact H.
   - intros [H|[H _]]; [exact H|]. unfold cp, in_done in H. cbn in H. discriminate.
+  - exact (tf_gstrict _ _ TF).
 Qed.
 
 End Fold.
@@ -548,26 +602,23 @@ Proof.
 Qed.
 
 Lemma after_groups_enc c f r :
+  present_in (mb_fp s) f = true ->
   group_in (mb_fp s) f = true -> present_in (mb_fp t0) f = false ->
   map_find f (genc_of c (mb_groups s)) = Some (Ok r) -> map_find f (genc_of c (mb_groups t)) = Some (Ok r).
 Proof.
-  intros Hg Hp. rewrite !map_find_genc.
-  destruct HI as (_ & _ & _ & I4 & _). cbn [snd] in I4. specialize (I4 f).
+  intros Hps Hg Hp. rewrite !map_find_genc.
+  destruct HI as (_ & _ & _ & (I4 & _) & _). cbn [snd] in I4. specialize (I4 f).
   destruct (map_find f (mb_groups s)) as [els|] eqn:Eg; [|discriminate]. cbn [option_map]. intros Hr.
   injection Hr as Hr.
-  pose proof (map_find_In _ _ _ Eg) as Hin. destruct (GF _ _ Hin) as [Hex Hne].
-  destruct (Hex Hg) as [x Hx]. pose proof (tf_gnil _ _ TF _ (map_find_In _ _ _ Hx)) as Hx0. cbn [snd] in Hx0. subst x.
-  destruct (in_done (mb_fp s) f) eqn:Ed.
-  - unfold GP in I4. rewrite Eg in I4. destruct els as [|e es].
-    + rewrite I4, Hx. cbn [option_map]. exact (f_equal Some Hr).
-    + destruct I4 as [els' [Hm HF]]. rewrite Hm. cbn [option_map]. f_equal.
-      apply (enc_els_rel c (e :: es) els'); [|exact Hr].
-      clear -HF. induction HF as [|a b l l' [Hab _] HF IH]; constructor; assumption.
-  - (* f is no tag of the source's table: impossible for a group tag *)
-    exfalso. unfold group_in in Hg. destruct (find_trait (mb_fp s) f) as [tr|] eqn:Et; [|discriminate].
-    destruct (find_trait_In _ _ _ Et) as [Hi Hf]. unfold in_done in Ed.
-    assert (existsb (fun tr0 => t_fnum tr0 =? f) (mb_fp s) = true); [|congruence].
-    apply existsb_exists. exists tr. split; [exact Hi|apply N.eqb_eq; exact Hf].
+  assert (Hd : in_done (mb_fp s) f = true).
+  { unfold present_in in Hps. destruct (find_trait (mb_fp s) f) as [tr|] eqn:Et; [|discriminate].
+    destruct (find_trait_In _ _ _ Et) as [Hi Hf]. unfold in_done. apply existsb_exists. exists tr.
+    split; [exact Hi|apply N.eqb_eq; exact Hf]. }
+  rewrite Hd in I4. unfold GP in I4. rewrite Eg in I4. destruct els as [|e es].
+  - unfold sel in I4. rewrite Hps, Hp, Hg in I4. cbn [negb andb] in I4. rewrite I4. cbn [option_map]. exact (f_equal Some Hr).
+  - destruct I4 as [els' [Hm HF]]. rewrite Hm. cbn [option_map]. f_equal.
+    apply (enc_els_rel c (e :: es) els'); [|exact Hr].
+    clear -HF. induction HF as [|a b l l' [Hab _] HF IH]; constructor; assumption.
 Qed.
 
 Lemma after_fields f :
@@ -608,10 +659,10 @@ Qed.
 
 Lemma target_ok_facts t0 : target_ok t0 = true ->
   (forall f, present_in (mb_fp t0) f = false) /\ mb_fields t0 = [] /\ mb_pos t0 = [] /\
-  (forall g, In g (mb_groups t0) -> snd g = []) /\ mb_unknown t0 = [].
+  (forall g, In g (mb_groups t0) -> snd g = []) /\ strictN (map fst (mb_groups t0)) = true /\ mb_unknown t0 = [].
 Proof.
-  unfold target_ok. rewrite !andb_true_iff. intros [[[[H1 H2] H3] H4] H5].
-  repeat split; try (apply is_nil_eq; assumption).
+  unfold target_ok. rewrite !andb_true_iff. intros [[[[[H1 H2] H3] H4] H4b] H5].
+  repeat split; try (apply is_nil_eq; assumption); try assumption.
   - intros f. unfold present_in. destruct (find_trait (mb_fp t0) f) as [tr|] eqn:E; [|reflexivity].
     destruct (find_trait_In _ _ _ E) as [Hin _]. rewrite forallb_forall in H1. apply negb_true_iff. apply H1. exact Hin.
   - intros g Hg. rewrite forallb_forall in H4. apply is_nil_eq. apply H4. exact Hg.
@@ -619,13 +670,13 @@ Qed.
 
 Lemma target_ok_tgt s t0 : target_ok t0 = true -> tgt_facts s t0.
 Proof.
-  intros H. destruct (target_ok_facts t0 H) as (Hp & Hf & Hq & Hg & Hu).
+  intros H. destruct (target_ok_facts t0 H) as (Hp & Hf & Hq & Hg & Hgs & Hu).
   constructor; rewrite ?Hf, ?Hq; try reflexivity; try assumption.
   - intros e [].
   - intros tr Hin Hpr. exfalso. specialize (Hp (t_fnum tr)). unfold present_in in Hp.
     destruct (find_trait (mb_fp t0) (t_fnum tr)) as [y|] eqn:E.
     + (* first trait with this tag: not present; tr itself might be a later duplicate *)
-      unfold target_ok in H. rewrite !andb_true_iff in H. destruct H as [[[[H1 _] _] _] _].
+      unfold target_ok in H. rewrite !andb_true_iff in H. destruct H as [[[[[H1 _] _] _] _] _].
       rewrite forallb_forall in H1. specialize (H1 tr Hin). rewrite Hpr in H1. discriminate.
     + apply find_trait_None in E. apply E. apply in_map. exact Hin.
   - intros e [].
@@ -662,17 +713,19 @@ Lemma empty_enc : enc_le s t.
 Proof.
   intros c b. pose proof (after_fp s t0 LF n t HI) as Hfp.
   pose proof (after_pos_rel s t0 LF TF n t HI) as Hpos.
-  pose proof (after_groups_enc s t0 TF GF n t HI c) as Hg.
+  pose proof (after_groups_enc s t0 n t HI c) as Hg.
   pose proof (after_unknown s t0 TF n t HI) as Hu. pose proof (lf_unk _ _ LF) as Hus.
+  pose proof (lf_entry _ _ LF) as Hent.
   destruct s as [fp subs fields pos groups unknown]. destruct t as [fp' subs' fields' pos' groups' unknown'].
-  cbn [mb_fp mb_pos mb_groups mb_unknown] in *. subst unknown unknown'.
+  cbn [mb_fp mb_pos mb_groups mb_unknown mb_fields] in *. subst unknown unknown'.
   rewrite !mb_encode_unfold. intros H.
   destruct (enc_pos c fp (genc_of c groups) pos) as [bb| | | |] eqn:E; try discriminate.
   rewrite (enc_pos_rel c fp fp' (genc_of c groups) (genc_of c groups') (present_in (mb_fp t0)) Hfp) with (b := bb) (p1 := pos).
   - exact H.
   - intros f Hf. rewrite Hnp in Hf. discriminate.
   - exact Hpos.
-  - intros f r _ Hgi _ Hm. apply Hg; [exact Hgi|apply Hnp|exact Hm].
+  - intros f r Hin Hgi _ Hm. apply Hg; [|exact Hgi|apply Hnp|exact Hm].
+    apply in_map_iff in Hin. destruct Hin as [e [He1 He2]]. destruct (Hent e He2) as [Hpe _]. rewrite He1 in Hpe. exact Hpe.
   - exact E.
 Qed.
 
@@ -692,7 +745,7 @@ Qed.
 
 Lemma empty_content : content (obj_of s) = content (obj_of t).
 Proof.
-  pose proof empty_fields as Hfe. destruct HI as (_ & _ & _ & I4 & _). cbn [snd] in I4.
+  pose proof empty_fields as Hfe. destruct HI as (_ & _ & _ & (I4 & _) & _). cbn [snd] in I4.
   pose proof (lf_fpres _ _ LF) as Hfp.
   destruct s as [fp subs fields pos groups unknown]. destruct t as [fp' subs' fields' pos' groups' unknown'].
   cbn [mb_fp mb_fields mb_groups] in *. subst fields'. rewrite !content_obj_of.
@@ -706,7 +759,9 @@ Proof.
   assert (Hnil : forall x, map_find f (mb_groups t0) = Some x -> x = []).
   { intros x Hx. exact (tf_gnil _ _ TF _ (map_find_In _ _ _ Hx)). }
   destruct (map_find f groups) as [[|e es]|] eqn:Eg.
-  - rewrite I4. destruct (map_find f (mb_groups t0)) as [x|] eqn:Ex; [rewrite (Hnil x eq_refl)|]; reflexivity.
+  - destruct (sel (MB fp subs fields pos groups unknown) t0 f && group_in (mb_fp (MB fp subs fields pos groups unknown)) f).
+    + rewrite I4. reflexivity.
+    + rewrite I4. destruct (map_find f (mb_groups t0)) as [x|] eqn:Ex; [rewrite (Hnil x eq_refl)|]; reflexivity.
   - destruct I4 as [els' [Hm HF]]. rewrite Hm. pose proof (els_toks_rel _ _ HF) as Ht.
     inversion HF; subst. rewrite <- Ht. reflexivity.
   - rewrite I4. destruct (map_find f (mb_groups t0)) as [x|] eqn:Ex; [rewrite (Hnil x eq_refl)|]; reflexivity.
@@ -753,7 +808,7 @@ Qed.
 Record part_post (s t0 : mbase) (t : mbase) : Prop := {
   pp_fp : same_static (mb_fp s) (mb_fp t);
   pp_pos : Forall2 (entry_rel (present_in (mb_fp t0))) (mb_pos s) (mb_pos t);
-  pp_groups : forall c f r, group_in (mb_fp s) f = true -> present_in (mb_fp t0) f = false ->
+  pp_groups : forall c f r, present_in (mb_fp s) f = true -> group_in (mb_fp s) f = true -> present_in (mb_fp t0) f = false ->
               map_find f (genc_of c (mb_groups s)) = Some (Ok r) -> map_find f (genc_of c (mb_groups t)) = Some (Ok r);
   pp_fields : forall f, map_find f (mb_fields t) =
                         if present_in (mb_fp t0) f then map_find f (mb_fields t0) else map_find f (mb_fields s);
@@ -762,7 +817,8 @@ Record part_post (s t0 : mbase) (t : mbase) : Prop := {
   pp_has : forall f, map_find f (mb_fields s) <> None -> map_find f (mb_fields t) <> None;
   pp_owned : forall f, present_in (mb_fp t0) f = true ->
              group_in (mb_fp s) f = false /\ exists e, In e (mb_pos t0) /\ e_fnum e = f;
-  pp_nodup : NoDup (map e_fnum (mb_pos s))
+  pp_nodup : NoDup (map e_fnum (mb_pos s));
+  pp_present : forall f, In f (map e_fnum (mb_pos s)) -> present_in (mb_fp s) f = true
 }.
 
 Theorem copy_part : forall s t0, part_ok s t0 = true ->
@@ -780,7 +836,7 @@ Proof.
   - constructor.
     + exact (after_fp s t0 LF n t HI).
     + exact (after_pos_rel s t0 LF TF n t HI).
-    + intros c. exact (after_groups_enc s t0 TF GF n t HI c).
+    + intros c. exact (after_groups_enc s t0 n t HI c).
     + exact (after_fields s t0 LF TF n t HI).
     + exact (after_unknown s t0 TF n t HI).
     + exact (lf_unk _ _ LF).
@@ -794,4 +850,6 @@ Proof.
       induction (mb_pos s) as [|e l IH]; [constructor|]. cbn [map] in *. inversion Hnd as [|? ? Hx Hl]; subst.
       constructor; [|apply IH; exact Hl]. intros Hin. apply Hx. apply in_map_iff in Hin.
       destruct Hin as [y [Hy1 Hy2]]. apply in_map_iff. exists y. split; [rewrite Hy1; reflexivity|exact Hy2].
+    + intros f Hin. apply in_map_iff in Hin. destruct Hin as [e [He1 He2]].
+      destruct (lf_entry _ _ LF e He2) as [Hp _]. rewrite He1 in Hp. exact Hp.
 Qed.
